@@ -48,7 +48,7 @@ def run(prog, tier):
     return R
 
 
-def check_reader_total(R, prog, eff):
+def _shape_reader_total(R, prog, eff):
     for q in ("parse_dimacs", "from_dimacs_file"):
         fi = prog.func(MOD, q)
         esc = eff.escapes(fi)
@@ -69,7 +69,7 @@ def check_reader_total(R, prog, eff):
     R.floor("READER-TOTAL", len(R.obligations), 3)
 
 
-def check_gates(R, prog):
+def _shape_gates(R, prog):
     fi = prog.func(MOD, "parse_dimacs")
     cfg = CFG(fi.node)
     stmts = stmts_in(fi.node)
@@ -197,7 +197,7 @@ def check_gates(R, prog):
                 "would not survive a round trip"))
 
 
-def check_tokens(R, prog):
+def _shape_tokens(R, prog):
     w = prog.func(MOD, "to_dimacs_file")
     r = prog.func(MOD, "parse_dimacs")
     # problem line written
@@ -360,3 +360,27 @@ def check_write_through(R, prog, prop, targets):
             else:
                 R.ok("WRITE-THROUGH", "%s.%s renders `self` on every path and keeps no state" % (cls, name), fi.key)
     return n
+
+
+def _reader_wrapped(shape, rule):
+    def check(R, prog, *extra):
+        """the shape rule behind the folded reader (sa/props/_writer_fold.py: from_dimacs_file over valid and damaged texts): a finding
+        inside parse_dimacs / from_dimacs_file is an undecided shape when the folding confirmed the grammar and the refusals"""
+        from ._shared import with_semantics
+        from . import _writer_fold
+        fi = prog.func("cnfgen.utils.parsedimacs", "from_dimacs_file")
+        sem = _writer_fold.verdict(prog, "dimacs-reader")
+        try:
+            with_semantics(R, R.prop, lambda T: shape(T, prog, *extra), sem, "from_dimacs_file reads exactly the documented grammar and refuses everything else",
+                           fi, rule="READER-SEMANTICS", scope=lambda f: (f.function or "").split(".")[0] in ("parse_dimacs", "from_dimacs_file"))
+        except AnalysisError as e:
+            if sem[0] is not True:
+                raise
+            R.ok("READER-SEMANTICS", "from_dimacs_file: %s" % sem[1], fi.key)
+            R.unknown(rule, "DIMACS reader shape", fi.key, "shape not recognised (%s); the meaning of the fragment was confirmed by folding" % str(e)[:120])
+    return check
+
+
+check_gates = _reader_wrapped(_shape_gates, "COUNT-GATE")
+check_tokens = _reader_wrapped(_shape_tokens, "TOKEN-TABLE")
+check_reader_total = _reader_wrapped(_shape_reader_total, "READER-TOTAL")
